@@ -139,6 +139,58 @@ class ElfPrims:
                 I._deref_all(path, args[0])[0] not in ("citer",) and not (I._deref_all(path, args[0])[0] == "agg" and I._deref_all(path, args[0])[1] == "array"):
             v = args[0]
             return [(("iter", I._deref_all(path, v)), path)]
+        if short == "next" and args and I._deref_all(path, args[0])[0] in ("lazy",) or \
+                (short == "next" and args and I._deref_all(path, args[0])[0] == "iter" and I._deref_all(path, args[0])[1][0] == "lazy"):
+            # `for x in table.iter().filter(..).map(..)`: one generic element that passes the pipeline, or the end. An element
+            # the pipeline drops is followed by another generic element or by the end, which these two outcomes cover.
+            it = I._deref_all(path, args[0])
+            if it[0] == "iter":
+                it = it[1]
+            base, stages = it[1], it[2]
+            inner = base
+            while inner[0] == "iter":
+                inner = inner[1]
+            elem = SYM if inner == ("symtab",) or "sym" in repr(inner) else SEG
+            what = "sym" if elem == SYM else "seg"
+            outs = []
+            p_end = path.copy()
+            p_end.events.append(("next", what, "none", len(p_end.conds)))
+            outs.append((A.NONE, p_end))
+            path.events.append(("next", what, "some", len(path.conds)))
+            states = [(path, elem)]
+            for kind, clos in stages:
+                nxt = []
+                for p, v in states:
+                    if kind == "filter":
+                        tmp = ("L", ("lazy-arg", frame.fid, t["sp"], len(p.events)), 0)
+                        p.store[tmp] = v
+                        carg = ("ref", (tmp, ()), False)
+                    else:
+                        carg = v
+                    res = I._call_closure_value(p, frame, t, clos, [carg], frame.depth, kind)
+                    if res is None:
+                        return None
+                    for o in res:
+                        if o.kind != "return":
+                            outs.append(("panic", o.cls, o.msg or "adaptor closure", o.path))
+                            continue
+                        if kind == "map":
+                            nxt.append((o.path, o.value))
+                        elif kind == "filter":
+                            d = I.decide(o.path, o.value)
+                            if d is None:
+                                I.assume_cond(o.path, o.value, 1)
+                                d = 1
+                            if d:
+                                nxt.append((o.path, v))
+                        else:
+                            for vi, payload, p3 in I.split_result(o.path, o.value, A.OPTION):
+                                if vi == 1:
+                                    nxt.append((p3, payload))
+                states = nxt
+            for p, v in states:
+                outs.append((A.SOME(v), p))
+            return outs
         if short == "next" and "ParsingIterator" in name:
             g = " ".join(t["f"].get("gargs", []))
             p2 = path.copy()
